@@ -37,7 +37,7 @@ func c15MaxBytes() int {
 
 func c15MaxTail() int {
 	if verifrt.Thorough() {
-		return 4
+		return 3
 	}
 	return 2
 }
@@ -62,7 +62,7 @@ func c15ChooseFocus() {
 		if verifrt.Choose("real-preallocation-cap", 2) == 1 {
 			maxPreallocate = 1000
 		}
-		c15ListBudget, c15BytesBudget = 5, 4
+		c15ListBudget, c15BytesBudget = 4, 3
 		c15AllSym = verifrt.Choose("all-leaves-symbolic", 2) == 1
 	}
 }
